@@ -95,6 +95,11 @@ def gen_case(r, k, same=None, long_=False):
         c["toggle"] = False
         for v in vars_:
             v["hk"] = None
+    # state-file events: before some steps the state is saved (text or binary) and loaded again, into a new instance
+    # with the same configuration (restart) or into the running instance (reload); more often for 1-D periodic grids,
+    # whose zero-mean term must be that of the grids that were read
+    per1 = nd == 1 and vars_[0]["periodic"]
+    c["events"] = (not c["toggle"]) and c["tsf"] == 1 and r.random() < (0.7 if per1 else 0.3)
     nsteps = r.randint(60, 160) if long_ else r.randint(6, 26)
     steps = []
     prev = None
@@ -130,6 +135,18 @@ def gen_case(r, k, same=None, long_=False):
                 es.append(V.dyadic(r, -8, 8, bits=3))
         steps.append({"z": zs, "e": es, "boundary": boundary})
         prev = zs
+    if c["events"]:
+        for _ in range(r.choice([1, 1, 2])):
+            t = r.randint(2, nsteps - 1)
+            steps[t]["event"] = {"kind": "restart" if r.random() < 0.65 else "reload", "fmt": r.choice(["text", "binary"])}
+            # the first step after a load re-executes the configuration that was saved (Colvars refuses a value that
+            # differs from the saved one by more than half a bin width)
+            steps[t]["z"] = list(steps[t - 1]["z"])
+            if steps[t]["event"]["kind"] == "restart":
+                steps[t]["boundary"] = steps[t]["boundary"] and r.random() < 0.3
+    for t in range(1, nsteps):
+        if steps[t].get("event"):
+            steps[t]["z"] = list(steps[t - 1]["z"])
     if c["toggle"]:
         cur = c["apply"]
         for st in steps[1:]:
@@ -249,11 +266,11 @@ def scale_factor(c, st):
     return Fr(c["sfac"][address(c, ix)]) if in_grid(c, ix) else Fr(1)
 
 
-def scenario(c):
+def config_lines(c):
+    """the configuration given to a new instance (first start and every restart)"""
     nd = len(c["vars"])
     amap, natoms = atom_map(c)
-    L = ["echo CASE %s" % c["id"], "natoms %d" % natoms, "samestep %d" % (1 if c["same"] else 0), "includecv 1",
-         "temperature %s" % fmt(c.get("T", 0.0)), "prefix %s" % c["id"], "new", "config EOF"]
+    L = ["config EOF"]
     for d, v in enumerate(c["vars"]):
         L += ["colvar {", "  name v%d" % d, "  lowerBoundary %s" % fmt(v["lower"]), "  upperBoundary %s" % fmt(v["upper"]),
               "  width %s" % fmt(v["w"])]
@@ -299,9 +316,34 @@ def scenario(c):
         harm += ["harmonic {", "  name h%d" % d, "  colvars v%d" % d, "  centers %s" % fmt(v["hc"]),
                  "  forceConstant %s" % fmt(v["hk"]), "}"]
     L += (abf + harm) if c["abf_first"] else (harm + abf)
-    L += ["EOF", "show cv 0 energy 0 bias 0 atomf 0"]
+    L += ["EOF"]
+    return L
+
+
+def state_name(c, n):
+    return "%s_r%d" % (c["id"], n)
+
+
+def scenario(c):
+    nd = len(c["vars"])
+    amap, natoms = atom_map(c)
+    L = ["echo CASE %s" % c["id"], "natoms %d" % natoms, "samestep %d" % (1 if c["same"] else 0), "includecv 1",
+         "temperature %s" % fmt(c.get("T", 0.0)), "prefix %s" % c["id"], "new"]
+    L += config_lines(c)
+    L += ["show cv 0 energy 0 bias 0 atomf 0"]
     cur_apply = c["apply"]
+    nev = 0
     for st in c["steps"]:
+        ev = st.get("event")
+        if ev:
+            # state file event before this step: save, (new instance with the same configuration,) load, dump
+            L.append("save %s %s.colvars.state" % (ev["fmt"], state_name(c, nev)))
+            if ev["kind"] == "restart":
+                L.append("new")
+                L += config_lines(c)
+                cur_apply = c["apply"]
+            L += ["load %s" % state_name(c, nev), "echo LOADED", "dumpabf a"]
+            nev += 1
         for d in range(nd):
             a, a0 = amap[d]
             L.append("pos %d 0 0 %s" % (a, V.hexf(st["z"][d])))
@@ -329,7 +371,23 @@ def scenario(c):
     return L
 
 
-def model_case(c):
+def event_dataset(c, im, t, n):
+    """(counts, gradients) that the state file written before step t contained: text -> the decimal values of the file,
+    binary -> value_output = sum / count of the arrays dumped after step t-1 (the doubles written)"""
+    nd = len(c["vars"])
+    prev = im["steps"][t - 1]
+    cnt = list(prev["cnt"])
+    ev = c["steps"][t]["event"]
+    if ev["fmt"] == "text":
+        st = im.get("rstates", {}).get(n)
+        if st is None:
+            return None
+        return st
+    grad = [(prev["sum"][i] / cnt[i // nd] if cnt[i // nd] > 0 else 0.0) for i in range(len(prev["sum"]))]
+    return cnt, grad
+
+
+def model_case(c, im=None):
     nd = len(c["vars"])
     vs = c["vars"]
     parts = ["ABF", str(nd)]
@@ -347,8 +405,18 @@ def model_case(c):
     parts += [str(len(inputs_of(c)))]
     for ds in inputs_of(c):
         parts += [str(x) for x in ds["cnt"]] + [V.hexf(g) for g in ds["grad"]]
-    parts += [str(len(c["steps"]))]
-    for st in c["steps"]:
+    nev = sum(1 for st in c["steps"] if st.get("event"))
+    parts += [str(len(c["steps"]) + nev)]
+    n = 0
+    for t, st in enumerate(c["steps"]):
+        ev = st.get("event")
+        if ev:
+            ds = event_dataset(c, im, t, n) if im is not None and t - 1 < len(im["steps"]) else None
+            if ds is None:
+                ds = ([0] * nt, [0.0] * (nt * nd))
+            parts += ["1" if ev["kind"] == "restart" else "2"] + [str(x) for x in ds[0]] + [V.hexf(g) for g in ds[1]]
+            n += 1
+        parts += ["0"]
         parts += [V.hexf(colvar_value(v, z)) for v, z in zip(vs, st["z"])]
         parts += [V.hexf(e) for e in st["e"]]
         parts += [V.hexf(o) for o in other_forces(c, st)]
@@ -381,7 +449,11 @@ def parse_fields(tokens):
     return out
 
 
+nextload = False
+
+
 def parse_impl(text):
+    global nextload
     """output of c04unit for a batch -> {case id: {"config": str, "steps": [fields], "err": [..]}}"""
     res = {}
     cur = None
@@ -390,16 +462,26 @@ def parse_impl(text):
         if not w:
             continue
         if w[0] == "echo" and len(w) >= 3 and w[1] == "CASE":
-            cur = {"config": None, "steps": [], "errs": []}
+            cur = {"config": None, "steps": [], "errs": [], "loads": [], "loaderr": []}
+            nextload = False
             res[w[2]] = cur
         elif cur is None:
             continue
+        elif w[0] == "echo" and len(w) >= 2 and w[1] == "LOADED":
+            nextload = True
+        elif w[0] == "LOAD":
+            cur["loaderr"].append(w[1] if len(w) > 1 else "")
         elif w[0] == "CONFIG":
-            cur["config"] = line
+            if cur["config"] is None or "err=ok" in cur["config"]:
+                cur["config"] = line
         elif w[0] == "STEP":
             cur["errs"].append(w[2] if len(w) > 2 else "")
         elif w[0] == "ABF":
-            cur["steps"].append(parse_fields(w[1:]))
+            if nextload:
+                cur["loads"].append(parse_fields(w[1:]))
+                nextload = False
+            else:
+                cur["steps"].append(parse_fields(w[1:]))
     return res
 
 
@@ -422,6 +504,11 @@ def clocks(c):
     out = []
     rel, started = 0, False
     for st in c["steps"]:
+        ev = st.get("event")
+        if ev:
+            rel = 0        # it_restart := it
+            if ev["kind"] == "restart":
+                started = False
         if not started:
             cont = st["boundary"]
             started = True
@@ -471,6 +558,9 @@ def expected_samples(c):
         else:
             if t + 1 >= n:
                 continue
+            ev1 = c["steps"][t + 1].get("event")
+            if ev1 and ev1["kind"] == "restart":
+                continue      # the new instance never receives the force of the last step of the old one
             rel, cont = clk[t + 1]
             elig = rel > 0 and not cont
         if not elig:
@@ -488,7 +578,7 @@ def expected_samples(c):
             if not c["hideJ"]:
                 f += Fr(j[d])       # the Jacobian term is part of the total force unless hideJacobian
             F.append(f)
-        out.append((address(c, ix), F, t))
+        out.append((address(c, ix), F, t if c["same"] else t + 1))     # (bin, force, step at which it is delivered)
     return out
 
 
@@ -564,7 +654,7 @@ def value_zero_steps(c, impl_steps):
 def parse_state(path):
     """ABF block of a text state file -> (counts, gradients) as printed (value_output, 14 digits)"""
     try:
-        txt = open(path).read()
+        txt = open(path, errors="replace").read()      # a binary state has no text block: None
     except OSError:
         return None
     m = re.search(r"abf\s*\{.*?\nsamples\s*\n(.*?)\n\s*\ngradient\s*\n(.*?)\n\}", txt, flags=re.S)
@@ -590,7 +680,7 @@ def parse_multicol(path, nd, mult):
         return None
 
 
-def oracle(c, impl_steps, state=None, files=None):
+def oracle(c, impl_steps, state=None, files=None, loads=None):
     """property oracle on the implementation's output alone; returns list of (signature, text)"""
     bad = []
     nd = len(c["vars"])
@@ -602,6 +692,7 @@ def oracle(c, impl_steps, state=None, files=None):
     # applied force at every step
     tsf = c.get("tsf", 1)
     clk_ = clocks(c)
+    per1 = nd == 1 and c["vars"][0]["periodic"]
     for t, (st, f) in enumerate(zip(c["steps"], impl_steps)):
         if clk_[t][0] % tsf != 0:
             # bias and variables asleep: nothing is computed and nothing may be applied
@@ -611,8 +702,15 @@ def oracle(c, impl_steps, state=None, files=None):
             continue
         exp = expected_abf_force(c, st, f["cnt"], f["sum"])
         if not all(close(a, b) for a, b in zip(exp, f["cf"])):
-            bad.append(("oracle:cf", "step %d: ABF force %s, but ramp(count)*mean(-force) [zero-mean, cap] of the stored arrays gives %s"
-                        % (t, f["cf"], [float(x) for x in exp])))
+            evs = [(u, c["steps"][u]["event"]["kind"], c["steps"][u]["event"]["fmt"]) for u in range(t + 1) if c["steps"][u].get("event")]
+            if per1:
+                bad.append(("force:periodic-zero-mean", "step %d: the ABF force on the periodic variable is %s, but the ramped mean of the current bin minus the mean over "
+                            "all bins of the ramped means, computed from the samples/gradients arrays at this step (counts %s, sums %s), is %s%s"
+                            % (t, f["cf"], f["cnt"], f["sum"], [float(x) for x in exp],
+                               ("; state-file events (step, kind, format) before this step: %s" % evs) if evs else "")))
+            else:
+                bad.append(("oracle:cf", "step %d: ABF force %s, but ramp(count)*mean(-force) [cap] of the stored arrays gives %s%s"
+                            % (t, f["cf"], [float(x) for x in exp], ("; state-file events before this step: %s" % evs) if evs else "")))
             break
         o = other_forces(c, st)
         # the hidden Jacobian force is compensated only by a variable that applies forces
@@ -632,7 +730,26 @@ def oracle(c, impl_steps, state=None, files=None):
             cnt[a] += ds["cnt"][a]
         for i in range(nt * nd):
             sm[i] += Fr(ds["grad"][i]) * ds["cnt"][i // nd]
-    for a, F, t in smp:
+    # state-file events: the grids that were loaded must be the grids that were saved, and the final arrays are the
+    # grids of the last load plus the samples delivered after it
+    evsteps = [t for t, st in enumerate(c["steps"]) if st.get("event")]
+    since = 0
+    if evsteps:
+        if loads is None or len(loads) != len(evsteps):
+            bad.append(("oracle:restart-grids", "%d state-file events but %s dumps after a load" % (len(evsteps), None if loads is None else len(loads))))
+            return bad
+        for n, t in enumerate(evsteps):
+            pre, ld = impl_steps[t - 1], loads[n]
+            if ld.get("cnt") != pre["cnt"] or len(ld.get("sum", [])) != len(pre["sum"]) or not all(close(a, b, 1e-12) for a, b in zip(pre["sum"], ld["sum"])):
+                bad.append(("oracle:restart-grids", "state saved (%s) before step %d and loaded (%s): counts/sums %s / %s were saved, %s / %s are in the grids after the load"
+                            % (c["steps"][t]["event"]["fmt"], t, c["steps"][t]["event"]["kind"], pre["cnt"], pre["sum"], ld.get("cnt"), ld.get("sum"))))
+                return bad
+        since = evsteps[-1]
+        cnt = list(loads[-1]["cnt"])
+        sm = [Fr(x) for x in loads[-1]["sum"]]
+    for a, F, tdel in smp:
+        if tdel < since:
+            continue
         cnt[a] += 1
         for d in range(nd):
             sm[a * nd + d] -= F[d]
@@ -896,6 +1013,26 @@ def judge_input(c, steps):
     return None
 
 
+def witness_restart_zero_mean():
+    """W10: one periodic variable, 2 bins, minSamples 0, fullSamples 1, same-step forces: one sample 2 in bin 0 and one sample 4 in
+    bin 1 (estimates -2 and -4, mean -3); the state is saved (text), a new instance loads it and re-executes the step; the force
+    must be -4 - (-3) = -1 in bin 1 and -2 - (-3) = +1 in bin 0 (probed at repeated steps, which add no sample)."""
+    v = _v1(periodic=True, P=2.0, c=1.0)
+    c = _c1("W10", v, [(0.5, 0.0, False), (0.5, 2.0, False), (1.5, 4.0, False), (1.5, 0.0, False), (0.5, 0.0, True), (1.5, 0.0, True)],
+            same=True, apply=True, full=1, min=0)
+    c["steps"][3]["event"] = {"kind": "restart", "fmt": "text"}
+    return c
+
+
+def judge_restart_zero_mean(c, steps):
+    f1, f0, f1b = steps[3]["cf"][0], steps[4]["cf"][0], steps[5]["cf"][0]
+    if f1 != -1.0 or f0 != 1.0 or f1b != -1.0:
+        return ("1-D periodic ABF, 2 bins, samples 2 in bin 0 and 4 in bin 1 (estimates -2, -4, mean over the bins -3), state saved and loaded by a new instance: "
+                "the force must be -4 + 3 = -1 in bin 1 and -2 + 3 = +1 in bin 0; after the restart the implementation applies %s in bin 1, %s in bin 0, %s in bin 1 "
+                "(sum over the period %s): the zero-mean term is not the mean of the grids that were read" % (f1, f0, f1b, f0 + f1b))
+    return None
+
+
 WITNESSES = ((witness_zero_total, "sample:subtractAppliedForce-zero-total-force", judge_zero_total),
              (witness_zero_total_abf, "sample:subtractAppliedForce-zero-total-force", judge_zero_total_abf),
              (witness_value_zero, "sample:force-dropped-at-value-zero", judge_value_zero),
@@ -906,7 +1043,8 @@ WITNESSES = ((witness_zero_total, "sample:subtractAppliedForce-zero-total-force"
              (witness_scaled, "sample:scaledBiasingForce-unscaled-force-subtracted", judge_scaled),
              (witness_toggle, "sample:applyBias-switched-stale-applied-force", judge_toggle),
              (witness_hidej_switched, "sample:hideJacobian-applyBias-switched", judge_hidej_switched),
-             (witness_input, "sample:inputPrefix-data", judge_input))
+             (witness_input, "sample:inputPrefix-data", judge_input),
+             (witness_restart_zero_mean, "force:periodic-zero-mean", judge_restart_zero_mean))
 
 
 # ------------------------------------------------------------------------------- running
@@ -931,6 +1069,8 @@ def run_batch(exe, cases, d, tag):
     for c in cases:
         if str(c["id"]) in res:
             res[str(c["id"])]["state"] = parse_state(os.path.join(d, "%s.state" % c["id"]))
+            nev = sum(1 for st in c["steps"] if st.get("event"))
+            res[str(c["id"])]["rstates"] = {n: parse_state(os.path.join(d, "%s.colvars.state" % state_name(c, n))) for n in range(nev)}
             nd_ = len(c["vars"])
             res[str(c["id"])]["files"] = (parse_multicol(os.path.join(d, "%s.count" % c["id"]), nd_, 1),
                                           parse_multicol(os.path.join(d, "%s.grad" % c["id"]), nd_, nd_))
@@ -1027,7 +1167,7 @@ def check(run):
                 miss = [c for c in sel[b0:b0 + B] if c["id"] not in res or len(res[c["id"]]["steps"]) < len(c["steps"])]
                 run.violation("impl:crash", "the implementation died (rc=%d) in a batch; first incomplete case %s: %s" % (rc, miss[0]["id"] if miss else "?", err[-300:]),
                               {"kind": "case", "case": miss[0] if miss else None})
-    mlines = [model_case(c) for c in cases]
+    mlines = [model_case(c, impl.get(c["id"])) for c in cases]
     rcm, mout, em = V.run_lines(model, mlines)
     nstate = 0
     for k, c in enumerate(cases):
@@ -1060,11 +1200,14 @@ def check(run):
         run.dist("scaledBiasingForce", 1 if c.get("scaled") else 0)
         run.dist("inputPrefix_datasets", len(inputs_of(c)))
         run.dist("applyBias_switched_at_run_time", 1 if c.get("toggle") else 0)
+        for stp in c["steps"]:
+            if stp.get("event"):
+                run.dist("state_%s_%s" % (stp["event"]["kind"], stp["event"]["fmt"]))
         run.dist("timeStepFactor>1 (oracle only)", 1 if c.get("tsf", 1) > 1 else 0)
         if im.get("state") is not None:
             nstate += 1
         # property oracle on the implementation alone
-        for sig, text in oracle(c, steps_i, im.get("state"), im.get("files")):
+        for sig, text in oracle(c, steps_i, im.get("state"), im.get("files"), im.get("loads")):
             run.violation(sig, "case %s: %s" % (c["id"], text), {"kind": "case", "case": c})
         if im.get("state") is None:
             run.mismatch("abf:state-file", {"case": c}, None, "a text state with an abf block")
@@ -1089,9 +1232,9 @@ def run_witnesses(run, unit, model, d):
         if text:
             run.violation(sig, "scenario %s (minimal input of an earlier defect; the cause given in parentheses is the one found then): %s" % (c["id"], text),
                           {"kind": "case", "case": c})
-        for s_, t_ in oracle(c, im["steps"], im.get("state"), im.get("files")):
+        for s_, t_ in oracle(c, im["steps"], im.get("state"), im.get("files"), im.get("loads")):
             run.violation(s_, "case %s: %s" % (c["id"], t_), {"kind": "case", "case": c})
-        ml = V.run_lines(model, [model_case(c)])[1]
+        ml = V.run_lines(model, [model_case(c, im)])[1]
         tie_case(run, c, im, ml[0] if ml else None)
 
 
@@ -1111,14 +1254,14 @@ def replay(path):
         print("\n".join(scenario(c)))
         rc, res, err = run_batch(unit, [c], d, "replay")
         im = res.get(str(c["id"]), {"steps": []})
-        ms, spec = parse_model(V.run_lines(model, [model_case(c)])[1][0])
+        ms, spec = parse_model(V.run_lines(model, [model_case(c, im)])[1][0])
         for t, a in enumerate(im["steps"]):
             print("step %d impl : %s" % (t, a))
             if t < len(ms):
                 print("step %d model: %s" % (t, ms[t]))
         print("state file:", im.get("state"))
         print("spec (attributed samples):", spec)
-        print("oracle:", oracle(c, im["steps"], im.get("state"), im.get("files")))
+        print("oracle:", oracle(c, im["steps"], im.get("state"), im.get("files"), im.get("loads")))
         for wf, sig, judge in WITNESSES:
             if wf()["id"] == c["id"] and len(im["steps"]) == len(c["steps"]):
                 print("judge:", judge(c, im["steps"]))
